@@ -676,6 +676,16 @@ class Explorer:
             return True
         if z3.is_false(cond):
             return False
+        cid = cond.get_id()
+        if cid in self._decided:        # the same condition was decided earlier on this path (self-composition repeats them)
+            return self._decided[cid]
+        r = self._decide(cond, payload)
+        if not self.dead:
+            self._decided[cid] = r
+            self._keep.append(cond)
+        return r
+
+    def _decide(self, cond, payload=None):
         self.decisions += 1
         if self.dead:
             self._dead_steps += 1
@@ -992,6 +1002,8 @@ class Explorer:
             self._roots = []
             self._pows = []
             self._divs = []
+            self._decided = {}
+            self._keep = []
             self._model = None
             self.dead = False
             self._dead_steps = 0
@@ -1002,7 +1014,9 @@ class Explorer:
                 res = None
             except (HarnessError, z3.Z3Exception, MemoryError, RecursionError, AssertionError):
                 raise
-            except Exception as e:      # the code under test raised on a feasible path: a candidate, not a harness error
+            except BaseException as e:      # the code under test raised on a feasible path: a candidate, not a harness error
+                if isinstance(e, KeyboardInterrupt) and not getattr(self, 'injects_interrupts', False):
+                    raise
                 res = None
                 if not self.dead:
                     self.prove(False, 'EXC: the code under test raised %s' % type(e).__name__,
